@@ -66,7 +66,7 @@ def run(ctx):
         progs, facts = [rp["prog"]], ([rp["factory"]] if rp.get("factory") else FACTORIES)
         progs[0]["actors"] = [(h, [tuple(o) for o in ops]) for h, ops in progs[0]["actors"]]
     else:
-        for i in range(ctx.n(90, 1500)):
+        for i in range(ctx.n(90, 1000)):
             big = ctx.rng.random() < (0.15 if ctx.quick else 0.3)
             progs.append(E.gen_prog(ctx.rng, na_max=5 if big else 3, nops_max=12 if big else 6))
     enc = [E.encode(p) for p in progs]
